@@ -74,13 +74,18 @@ def _s():
     return int(os.environ.get("VERIF_SEED", "0") or 0) % 5
 
 
-def configured(case=None):
+def configured(case=None, final=True):
     """The user's configured values (what every non-swept setting must keep).  The configured vector `v` of p1 has
-    the length of the swept vectors (a vector parameter that changes its length between runs is out of scope)."""
+    the length of the swept vectors, except in the cases marked "cfglen2" (configured length 2, swept length 3).
+    Cases marked rerun="edit"/"other": the observation object is run a second time after the user changed the
+    configured values (in place / by passing other objects); final=True gives the values of that second run."""
     s = _s()
-    v1 = (3.0, 4.0, 4.5) if case is not None and "V1x3" in case["kinds"] else (3.0, 4.0)
-    return {"T": 100.0 + s, "Q": 0.5, "A1": 1.0 + s, "B1": 2.0, "V1": v1, "A2": 7.0 + s, "B2": 0.25,
-            "V2": (8.0, 9.0, 9.5)}
+    v1 = (3.0, 4.0, 4.5) if case is not None and "V1x3" in case["kinds"] and not case.get("cfglen2") else (3.0, 4.0)
+    c = {"T": 100.0 + s, "Q": 0.5, "A1": 1.0 + s, "B1": 2.0, "V1": v1, "A2": 7.0 + s, "B2": 0.25,
+         "V2": (8.0, 9.0, 9.5)}
+    if final and case is not None and case.get("rerun") in ("edit", "other"):
+        c.update({"T": 171.0 + s, "A1": 81.0 + s, "B1": 82.5, "A2": 87.0 + s, "B2": 0.75})
+    return c
 
 
 def values_of(kind, n, form):
@@ -232,6 +237,24 @@ def enumerate_cases(tier, seed):
                         add(kinds, (2, 1, 2), ["lit"] * 3, en, mode, ex)
             for ex in EXEC:
                 add(kinds, [1, 1, 1], ["lit"] * 3, [True] * 3, "custom", ex, 2, "zero")
+    # ---- the same Observation object run twice: unchanged / configured values edited in place / other objects passed
+    for kinds, lens in ((("A1", "T"), (2, 2)), (("T", "A1"), (2, 1)), (("A1", "B1", "A2"), (2, 1, 2)), (("Q",), (2,))):
+        for rerun in ("same", "edit", "other"):
+            for mode in ("product", "sequential"):
+                for ex in EXEC:
+                    add(kinds, lens, ["lit"] * len(kinds), [True] * len(kinds), mode, ex)
+                    cases[-1]["rerun"] = rerun
+        for rerun in ("edit", "other"):
+            for ex in EXEC:
+                add(kinds, [1] * len(kinds), ["lit"] * len(kinds), [True] * len(kinds), "custom", ex, 2, "zero")
+                cases[-1]["rerun"] = rerun
+    # ---- a swept vector longer than the configured one, next to a scalar parameter (sequential: the runs of the scalar
+    #      parameter use - and are labelled with - the shorter configured vector)
+    for kinds in (("A1", "V1x3"), ("V1x3", "A1"), ("V1x3", "V2x3")):
+        for mode in ("product", "sequential"):
+            for ex in EXEC:
+                add(kinds, (2, 2), ["lit", "lit"], [True, True], mode, ex)
+                cases[-1]["cfglen2"] = True
     if thorough:
         # ---- size 3: canonical and reversed order; several length vectors; all enabled patterns on one of them
         L3 = [(2, 3, 1), (1, 2, 3), (3, 1, 2), (2, 2, 2)]
@@ -301,16 +324,16 @@ def _freeze(assign):
 
 # ---------------------------------------------------------------- construction
 
-def build_pipeline(case):
-    c = configured(case)
+def build_pipeline(case, final=False):
+    c = configured(case, final)
     return mk.pipeline({
         "photon_collection": [("vp.cprobes.enc", "p1", {"slot": 0, "a": c["A1"], "b": c["B1"], "v": list(c["V1"])}, True)],
         "charge_generation": [("vp.cprobes.enc", "p2", {"slot": 1, "a": c["A2"], "b": c["B2"], "v": list(c["V2"])}, True)],
     })
 
 
-def build_detector(case):
-    c = configured(case)
+def build_detector(case, final=False):
+    c = configured(case, final)
     return mk.detector("ccd", ROWS, COLS, temperature=c["T"], char_kw={"quantum_efficiency": c["Q"]})
 
 
@@ -378,6 +401,10 @@ def run_case(case):
 
     def bad(code, what, **extra):
         key = {"mode": mode, "exec": ex, "code": code, "multi": n_en >= 2}
+        if case.get("rerun"):
+            key["rerun"] = case["rerun"]
+        if case.get("cfglen2"):
+            key["cfglen2"] = True
         if mode == "custom":
             key["cr"] = case["cr"]
         key.update(extra)
@@ -387,7 +414,7 @@ def run_case(case):
 
     ref = reference_space(case)
     ref_full = [full_assignment(e, case) for e in ref]
-    sig_base = [mode, ex, [sorted(e.items()) for e in ref]]
+    sig_base = [mode, ex, [sorted(e.items()) for e in ref], case.get("rerun"), case.get("cfglen2")]
     nontrivial = len(ref) >= 2
     tmp = tempfile.mkdtemp(prefix="vp_c05_")
     probes.reset()
@@ -407,6 +434,20 @@ def run_case(case):
         # ---- execution
         try:
             with dask.config.set(scheduler="synchronous"):
+                if case.get("rerun"):
+                    # the SAME observation object is used twice; the second run is the one under test
+                    first = pyxel.run_mode(obs, det, pipe, with_inherited_coords=True)
+                    bucket_dataset(first).load()
+                    fin = configured(case, True)
+                    if case["rerun"] == "edit":
+                        det.environment.temperature = fin["T"]
+                        pipe.photon_collection.p1.arguments["a"] = fin["A1"]
+                        pipe.photon_collection.p1.arguments["b"] = fin["B1"]
+                        pipe.charge_generation.p2.arguments["a"] = fin["A2"]
+                        pipe.charge_generation.p2.arguments["b"] = fin["B2"]
+                    elif case["rerun"] == "other":
+                        det, pipe = build_detector(case, True), build_pipeline(case, True)
+                    probes.reset()
                 result = pyxel.run_mode(obs, det, pipe, with_inherited_coords=True)
                 ds = bucket_dataset(result)
                 ds = ds.load()
